@@ -545,14 +545,16 @@ def pure_functions(module):
     return out
 
 
-def enumerate_paths(fn, module, loop_bound=None, max_paths=MAX_PATHS, call_effects=None):
+def enumerate_paths(fn, module, loop_bound=None, max_paths=MAX_PATHS, call_effects=None, dropped=None):
     """All paths from entry to a return/unreachable.
 
     loop_bound=None (default, strict): the function must be loop-free up to loops whose conditions fold to constants on
     every iteration (those are unrolled completely, at most 64 iterations); any other loop raises AnalysisError, so a rule
     written for straight-line code never silently sees a truncated loop.
     loop_bound=k (explicit): each back edge at most k times; paths that would go round again are DROPPED - only for rules
-    that know they are looking at a loop and treat the paths as segments.
+    that know they are looking at a loop and treat the paths as segments.  If `dropped` is a list, the prefix of every
+    dropped path (with the condition that sends it round again) is appended to it, so that a rule can discharge the
+    truncation by showing those prefixes infeasible in its scope.
 
     Infeasible paths are pruned only when a branch condition folds to a constant.
     """
@@ -618,6 +620,13 @@ def enumerate_paths(fn, module, loop_bound=None, max_paths=MAX_PATHS, call_effec
                     if n >= loop_bound:
                         if strict:
                             raise AnalysisError("%s: loop at %s not unrolled within %d iterations" % (fn.name, t.loc, loop_bound))
+                        if dropped is not None:
+                            d = path.clone()
+                            if cond:
+                                d.conds.append(cond)
+                                d.cond_pos.append(len(d.events))
+                            d.end = "dropped"
+                            dropped.append(d)
                         continue
                 p2 = path.clone() if k < len(nxt) - 1 else path
                 if is_back(blk, s):
